@@ -43,6 +43,12 @@ def dmul(a, b, k=1):
     return {x: v for x, v in r.items() if v}
 
 
+PINT_PREFIXES = ("yocto", "zepto", "atto", "femto", "pico", "nano", "micro", "milli", "centi", "deci", "deca", "deka", "hecto", "kilo", "mega",
+                 "giga", "tera", "peta", "exa", "zetta", "yotta", "kibi", "mebi", "gibi", "tebi", "pebi", "exbi", "zebi", "yobi",
+                 "y", "z", "a", "f", "p", "n", "u", "µ", "μ", "m", "c", "d", "da", "h", "k", "M", "G", "T", "P", "E", "Z", "Y",
+                 "Ki", "Mi", "Gi", "Ti", "Pi", "Ei", "Zi", "Yi")
+
+
 def parse_units(model):
     """{name: dimension} from the ureg.define("a = expr = alias …") strings of units/pint.py"""
     m = model.modules.get(PINT)
@@ -127,6 +133,18 @@ def check(rep, an, tier):
     for u in ("I", "E", "spectralirradiance"):
         rep.check("R-QTY", f"unit `{u}` is defined in units/pint.py", u in names and u in table, where=PINT.replace(".", "/") + ".py",
                   construct=f"ureg.define(… {u} …)", entry="unit table", msg="a unit string used by the converters is not defined")
+    # a prefixed unit string built by the converters (f"{prefix}spectralirradiance", f"{prefix}E") must mean prefix × unit: pint resolves an
+    # exactly DEFINED name before it splits off a prefix, so no defined name may spell prefix + another defined name
+    shadow = [(n, p_, n[len(p_):]) for n in sorted(names) for p_ in PINT_PREFIXES
+              if n.startswith(p_) and n[len(p_):] in names and n[len(p_):] != n]
+    for n, p_, m_ in shadow:
+        rep.violated("R-API", "no defined unit name spells a prefixed form of another unit", where=PINT.replace(".", "/") + ".py",
+                     construct=f"ureg.define(… {n} …)", entry="unit table",
+                     msg=f"the unit `{n}` is defined in its own right: the string `{p_}` + `{m_}` that the converters build for prefix='{p_}' now "
+                         f"resolves to this definition instead of {p_}·{m_}, so the prefixed result is in a different unit than requested")
+    if not shadow:
+        rep.holds("R-API", "no defined unit name spells a prefixed form of another unit", where=PINT.replace(".", "/") + ".py",
+                  construct=f"{len(names)} defined names × {len(PINT_PREFIXES)} prefixes", entry="unit table")
     dim_I, dim_E = table.get("I"), table.get("E")
     for fname, src, want_deg, out_unit, in_kw in (
             ("irr2flux", "irradiance", {"irradiance": 1, "wavelengths": 1, "planck_constant": -1, "speed_of_light": -1, "N_A": -1}, "E", "irr_units"),
@@ -152,6 +170,17 @@ def check(rep, an, tier):
             kw = {src: spec_, "wavelengths": arr("wavelengths", S("WL"), None), "return_units": none(), "prefix": none(), "axis": none(),
                   in_kw: strv(in_kw, "I" if fname == "irr2flux" else "E")}
             res = an.run(f"{CONV}:{fname}", kws=kw, spec=hooks(), config=cfgname(dict(units=has_units, declared_unit="given")))
+            # … and with the wavelengths given as a quantity (any length unit)
+            kwq = dict(kw)
+            kwq["wavelengths"] = arr("wavelengths", S("WL"), None)
+            kwq["wavelengths"].tags.update(kind="pintq", has_units=True)
+            resq = an.run(f"{CONV}:{fname}", kws=kwq, spec=hooks(), config=cfgname(dict(units=has_units, wavelengths="quantity")))
+            convq = [ev for ev in resq.events("pint_to") if ev.d.get("target") is not None and ev.d["target"].known and ev.d["target"].const == "nm"
+                     and ev.d.get("base") is not None and "wavelengths" in ev.d["base"].flat().data]
+            rawq = [ev for ev in resq.events("raw_magnitude") if "wavelengths" in ev.d["of"].flat().data]
+            rep.check("R-QTY", "wavelengths given as a quantity are converted to nm", bool(convq) and not rawq, where=resq.fn.loc(),
+                      construct=f"wavelengths.to('nm') in {fname}", entry=entry, config=resq.config,
+                      msg="a wavelength quantity (µm, m, Å) is not converted to nanometres before its number enters λ/(h c N_A)")
             dv = {o.split("|")[0] for o in res.value.flat().deps_all()}
             rep.check("R-FLOW", f"the declared input unit ({in_kw}) is applied", in_kw in dv, where=res.fn.loc(), construct=f"{in_kw} → result of {fname}",
                       entry=entry, config=res.config,
@@ -297,8 +326,20 @@ def formula(rep, res, entry, want_deg, out_unit, table, dim_I, dim_E, fname, ru,
                           "non-injectively normalised image of it: 'M' mega and 'm' milli, 'P' peta and 'p' pico then name the same unit)")
     nm = [ev for ev in res.events("call") if ev.d["callee"].name == "optional_to" and R.near(ev) and len(ev.d["args"]) > 1
           and ev.d["args"][1].known and ev.d["args"][1].const == "nm" and "wavelengths" in ev.d["args"][0].flat().data]
-    rep.check("R-QTY", "wavelengths are converted to nm", bool(nm), where=where, construct="optional_to(wavelengths, 'nm')", entry=entry,
-              config=res.config)
+    if not nm:
+        # … or converted directly: wavelengths.to("nm", …) before the magnitude is taken
+        for ev in tos:
+            t = ev.d.get("target")
+            recv = ev.d.get("recv") or ev.d.get("base")
+            if t is not None and t.known and t.const == "nm" and recv is not None and "wavelengths" in recv.flat().data:
+                nm.append(ev)
+    wl_in = getattr(res, "inputs", {}).get("wavelengths")
+    wl_units = wl_in is not None and wl_in.tag("kind") == "pintq"
+    raw = [ev for ev in res.events("raw_magnitude") if "wavelengths" in ev.d["of"].flat().data]
+    # plain wavelengths are nanometres by definition; a quantity must be converted to nm before its number is used
+    rep.check("R-QTY", "wavelengths are converted to nm", (bool(nm) or not wl_units) and not raw, where=where,
+              construct="optional_to(wavelengths, 'nm')", entry=entry, config=res.config,
+              msg="the number of a unit-carrying wavelength is used without converting it to nanometres first")
     # return_units decides only .magnitude
     rets = [r for r in res.events("return") if len(r.path) == 1]
     if ru is not None:
